@@ -713,6 +713,7 @@ pub(super) fn on_close(k: &mut Kernel, fd: Fd) -> bool {
             // via the user's TcpStream.
             let listener_port = local.port();
             let wildcard = local.ip().is_unspecified();
+            let listener_domain = k.sockets.get(fd).map(|s| s.domain);
             let mut children: Vec<Fd> = k
                 .sockets
                 .get(fd)
@@ -730,6 +731,11 @@ pub(super) fn on_close(k: &mut Kernel, fd: Fd) -> bool {
                     continue;
                 }
                 if bind.local_port != listener_port {
+                    continue;
+                }
+                // 0.0.0.0:p and [::]:p are different listeners: a child
+                // of the other family is not ours to reset.
+                if Some(st.domain) != listener_domain {
                     continue;
                 }
                 if !wildcard && bind.local_addr != local.ip() {
